@@ -270,7 +270,7 @@ func (fm *vFakeMaster) serve(c net.Conn) {
 			fm.log = append(fm.log, vCall{kind: 0, query: string(p[1:])})
 			fm.mu.Unlock()
 			if fm.sc.failExec {
-				fmWrite(c, 1, append([]byte{0xff, 0x28, 0x04, '#', '4', '2', '0', '0', '0'}, "scripted failure"...))
+				fmWrite(c, 1, append([]byte{0xff, byte(fm.sc.execCode), byte(fm.sc.execCode >> 8), '#', '4', '2', '0', '0', '0'}, "scripted failure"...))
 				continue
 			}
 			if fmWrite(c, 1, fmOK) != nil {
